@@ -10,6 +10,11 @@
 (*    "validate-first"  text := to_string(); open; decl; body; close        *)
 (*    "open-first"      open; decl; to_string(); body; close   (the code    *)
 (*                      as it was before the repair)                        *)
+(*    "check-open-serialise"  final checks; open; decl; serialise; body;    *)
+(*                      close  (validation first, but the text is produced  *)
+(*                      after the file was truncated)                       *)
+(* to_string() = Validate (final checks) followed by Serialise (building    *)
+(* the text), and either can raise.                                         *)
 (* file = <<>> means "absent"; otherwise a sequence of abstract chunks.     *)
 (* TLC checks AllOrNothing and Declared for every failing node, every prior *)
 (* file state and an Open that may fail; "open-first" violates AllOrNothing *)
@@ -21,15 +26,16 @@ CONSTANTS Design,     \* "validate-first" | "open-first"
           Nodes,      \* 1..N: nodes of the document in the order the final check visits them
           PriorStates \* set of prior file contents, e.g. {<<>>, <<"old">>}
 
-VARIABLES pc, file, file0, failing, openFails, visited, text, raised, returned,
+VARIABLES pc, file, file0, failing, openFails, serFails, visited, text, raised, returned,
           eff      \* history: the externally visible effects so far (what a recorder around open/write/to_string sees)
-vars == <<pc, file, file0, failing, openFails, visited, text, raised, returned, eff>>
+vars == <<pc, file, file0, failing, openFails, serFails, visited, text, raised, returned, eff>>
 
 Absent == <<>>
 Init == /\ pc = "start"
         /\ file0 \in PriorStates /\ file = file0
         /\ failing \in Nodes \cup {0}          \* 0: the document is complete
         /\ openFails \in BOOLEAN
+        /\ serFails \in BOOLEAN               \* building the text raises although every check passed
         /\ visited = 0 /\ text = "" /\ raised = FALSE /\ returned = FALSE /\ eff = <<>>
 
 \* the final check visits node visited+1; it raises at the failing node
@@ -39,47 +45,55 @@ ValidateStep ==
      THEN /\ pc' = "raised" /\ raised' = TRUE /\ UNCHANGED <<visited, text>>
           /\ eff' = Append(eff, "validate-raise")
      ELSE IF visited + 1 > Cardinality(Nodes)
-          THEN /\ text' = "doc" /\ UNCHANGED <<visited, raised>>
-               /\ pc' = IF Design = "validate-first" THEN "open" ELSE "body"
+          THEN /\ UNCHANGED <<visited, raised, text>>
+               /\ pc' = IF Design = "check-open-serialise" THEN "open" ELSE "serialise"
                /\ eff' = Append(eff, "validate")
           ELSE /\ visited' = visited + 1 /\ UNCHANGED <<text, raised, pc, eff>>
-  /\ UNCHANGED <<file, file0, failing, openFails, returned>>
+  /\ UNCHANGED <<file, file0, failing, openFails, serFails, returned>>
+
+Serialise ==
+  /\ pc = "serialise"
+  /\ IF serFails
+     THEN /\ pc' = "raised" /\ raised' = TRUE /\ eff' = Append(eff, "serialise-raise") /\ UNCHANGED text
+     ELSE /\ text' = "doc" /\ UNCHANGED raised /\ eff' = Append(eff, "serialise")
+          /\ pc' = IF Design = "validate-first" THEN "open" ELSE "body"
+  /\ UNCHANGED <<file, file0, failing, openFails, serFails, visited, returned>>
 
 Start == /\ pc = "start"
-         /\ pc' = IF Design = "validate-first" THEN "validate" ELSE "open"
-         /\ UNCHANGED <<file, file0, failing, openFails, visited, text, raised, returned, eff>>
+         /\ pc' = IF Design = "open-first" THEN "open" ELSE "validate"
+         /\ UNCHANGED <<file, file0, failing, openFails, serFails, visited, text, raised, returned, eff>>
 
 Open == /\ pc = "open"
         /\ IF openFails
            THEN /\ pc' = "raised" /\ raised' = TRUE /\ UNCHANGED file /\ eff' = Append(eff, "open-raise")
            ELSE /\ file' = <<"">>                    \* created / truncated: present and empty
                 /\ pc' = "decl" /\ UNCHANGED raised /\ eff' = Append(eff, "open")
-        /\ UNCHANGED <<file0, failing, openFails, visited, text, returned>>
+        /\ UNCHANGED <<file0, failing, openFails, serFails, visited, text, returned>>
 
 WriteDecl == /\ pc = "decl"
              /\ file' = <<"decl">>
-             /\ pc' = IF Design = "validate-first" THEN "body" ELSE "validate"
+             /\ pc' = IF Design = "validate-first" THEN "body" ELSE IF Design = "open-first" THEN "validate" ELSE "serialise"
              /\ eff' = Append(eff, "decl")
-             /\ UNCHANGED <<file0, failing, openFails, visited, text, raised, returned>>
+             /\ UNCHANGED <<file0, failing, openFails, serFails, visited, text, raised, returned>>
 
 WriteBody == /\ pc = "body"
              /\ file' = Append(file, text)
              /\ pc' = "close" /\ eff' = Append(eff, "body")
-             /\ UNCHANGED <<file0, failing, openFails, visited, text, raised, returned>>
+             /\ UNCHANGED <<file0, failing, openFails, serFails, visited, text, raised, returned>>
 
 Close == /\ pc = "close"
          /\ pc' = "done" /\ returned' = TRUE /\ eff' = Append(eff, "close")
-         /\ UNCHANGED <<file, file0, failing, openFails, visited, text, raised>>
+         /\ UNCHANGED <<file, file0, failing, openFails, serFails, visited, text, raised>>
 
-Next == Start \/ ValidateStep \/ Open \/ WriteDecl \/ WriteBody \/ Close
+Next == Start \/ ValidateStep \/ Serialise \/ Open \/ WriteDecl \/ WriteBody \/ Close
 Spec == Init /\ [][Next]_vars
 
-TypeOK == pc \in {"start", "validate", "open", "decl", "body", "close", "done", "raised"}
+TypeOK == pc \in {"start", "validate", "serialise", "open", "decl", "body", "close", "done", "raised"}
 \* C17: if write raises, the previous content of path is untouched
 AllOrNothing == raised => file = file0
 \* C17: when it returns, the file holds the declaration followed by exactly to_string()
 Declared == returned => file = <<"decl", "doc">>
-EffectsAgree == pc \in {"done", "raised"} => eff = EffectsOf(Design, failing # 0, openFails)
+EffectsAgree == pc \in {"done", "raised"} => eff = EffectsOf(Design, failing # 0, serFails, openFails)
 \* non-vacuity: both endings are reachable (checked as "never" invariants that TLC must violate)
 NeverRaises == ~raised
 NeverReturns == ~returned
